@@ -391,10 +391,12 @@ Section Compile.
     let s2 := replace_all (B "}}") (B "--}}--") s1 in
     let s3 := replace_all (B "--{{--") (B "{{""{{""}}") s2 in
     let s4 := replace_all (B "--}}--") (B "{{""}}""}}") s3 in
+    (* a single brace directly before one of the quoting actions would form a delimiter with its braces *)
+    let s5 := replace_all (B "{{{") (B "{{""{""}}{{") s4 in
     (* a trailing brace would form a delimiter with what follows *)
-    match rev s4 with
-    | c :: r => if Ascii.eqb c "{" then rev r ++ B "{{""{""}}" else s4
-    | [] => s4
+    match rev s5 with
+    | c :: r => if Ascii.eqb c "{" then rev r ++ B "{{""{""}}" else s5
+    | [] => s5
     end.
 
   Definition lit_open : tok := TAct (B "{{""{{""}}") false false (AcPipe ([], [[AStr (B "{{")]])).
